@@ -176,7 +176,9 @@ func (f *flusher) nextToFlush() (b *blob, ok bool) {
 
 func (f *flusher) flush(b *blob) {
 	key := b.key
+	verifYield("flusher.flush_start")
 	defer func() {
+		verifYield("flusher.before_unban")
 		err := f.mem.UnbanEviction(key) // prevent leak
 		if err != nil {
 			f.log.With(
@@ -197,6 +199,7 @@ func (f *flusher) flush(b *blob) {
 			return
 		}
 	}
+	verifYield("flusher.data_flushed")
 
 	if err := f.flushMetadatasAndUnmarkDirty(key, b); err != nil {
 		err = fmt.Errorf("flush metadatas: %w", err)
@@ -230,6 +233,7 @@ func (f *flusher) flushMetadatasAndUnmarkDirty(key string, b *blob) error {
 		dirtyMDSnapshot := b.dirtyMD
 		b.dirtyMD = make(map[string]struct{})
 		b.mu.Unlock()
+		verifYield("flusher.md_snapshot")
 
 		for mdSuffix := range dirtyMDSnapshot {
 			err := f.flushMetadata(key, mdSuffix)
@@ -242,6 +246,7 @@ func (f *flusher) flushMetadatasAndUnmarkDirty(key string, b *blob) error {
 				return fmt.Errorf("flush md: %w", err)
 			}
 		}
+		verifYield("flusher.md_flushed")
 
 		f.mu.Lock()
 		b.mu.Lock()
